@@ -40,7 +40,7 @@ type RealCase struct {
 // EvViolation lets harnesses outside this module tree name the type.
 type EvViolation = ev.Violation
 
-const realStall = 90 * time.Second
+const realStall = 40 * time.Second
 
 func runReal(bin string, c *RealCase) (kind, detail string) {
 	dir, err := os.MkdirTemp("", "realbin")
@@ -148,6 +148,11 @@ func RealBinary(r *ev.Run, id, binEnv string, cases []RealCase) {
 		r.Extra["real_binary_pass"] = "not run (" + binEnv + " not set)"
 		return
 	}
+	if r.NViolations() > 0 {
+		// the exhaustive part has already decided; the conformance leg adds nothing
+		r.Extra["real_binary_pass"] = "skipped: a violation was already found by the exploration"
+		return
+	}
 	ran := 0
 	for i := range cases {
 		c := &cases[i]
@@ -169,6 +174,7 @@ func RealBinary(r *ev.Run, id, binEnv string, cases []RealCase) {
 		}
 		r.Violate(ev.Violation{Fingerprint: id + " real-binary " + kind, What: "end-to-end run of the real binary, case " + c.Name + ": " + kind + ": " + detail,
 			Case: map[string]interface{}{"case": c.Name, "args": c.Args, "stdin_bytes": len(c.Stdin), "block": c.Block}, ReplayKind: "real-binary"})
+		break // one confirmed failure is enough (a program that stalls would cost a time-out per case)
 	}
 	r.Extra["real_binary_pass"] = fmt.Sprintf("%d end-to-end runs of the shipped main() (GOGC=1, OS schedule) - conformance leg, not part of the exhaustive claim", ran)
 }
